@@ -89,9 +89,17 @@ class SimpleCache(BaseCache):
         output_data: StrKeyMapping,
     ) -> None:
         if self.__is_cached(input_data):
-            if not self.__outputs:
+            if self.__outputs:
+                return
+
+            # The output data are attached to an entry without output data
+            # only when they were computed at its input data:
+            # with a tolerance,
+            # output data computed at a close point would otherwise be served
+            # for points within the tolerance of the entry but not of that point.
+            if self.compare_dict_of_arrays(input_data, self.__inputs):
                 self.__outputs = deepcopy_dict_of_arrays(output_data)
-            return
+                return
 
         self.__inputs = deepcopy_dict_of_arrays(input_data)
         self.__outputs = deepcopy_dict_of_arrays(output_data)
